@@ -5,8 +5,8 @@ The property itself ("elvish = reference on every core program") is
 established by correspondence (translation validation, harness/c15), not by a
 theorem about pkg/eval.  The theorems below show that the reference has the
 laws language.md states — i.e. that it is the reference and not a transcript
-of the implementation — and `C15_counterexample` records where pkg/eval is
-known to deviate from it.
+of the implementation.  `C15_unfixed_stale_element_container` records a
+defect of pkg/eval that the comparison exposed and that has since been fixed.
 -/
 import ElvProofs.C15.Basic
 import ElvProofs.C15.Sem
@@ -320,15 +320,15 @@ example : rExpr [["x"], ["true", "false", "nil", "ok"]] (.var "x") = true := by 
 example : accepts (Ex.ch Ex.shadowing) = true := by rfl
 example : accepts (Ex.ch [Ex.put [.var "nope"]]) = false := by rfl
 
-/-! ### Known deviation of pkg/eval from the reference -/
+/-! ### A defect the reference exposed (fixed in pkg/eval by commit 798ebe2) -/
 
 /-- `var l = [x y z]; set l[0] l[1] = a b; put $l`: the reference assigns both
-elements (`[a b z]`); with `staleElem` — pkg/eval's treatment of lvalues with
-indices, which the correspondence confirms on the real code — the first
-assignment is lost (`[x b z]`).  Recorded as finding
-`differs-from-reference/stale-element-container`. -/
-theorem C15_counterexample :
+elements (`[a b z]`).  pkg/eval before commit 798ebe2 kept, for an lvalue with
+indices, the container read when the lvalue was evaluated (`staleElem`), and
+lost the first assignment (`[x b z]`).  The program and
+`var l = [x y z]; set l[0] = (set l = [p q r]; put a); put $l` are the first
+two corpus programs: the check fails again if the defect returns. -/
+theorem C15_unfixed_stale_element_container :
     Ex.text { staleElem := false } Ex.twoElementsOfOneVariable = "ok|['a' 'b' 'z']" ∧
     Ex.text { staleElem := true } Ex.twoElementsOfOneVariable = "ok|['x' 'b' 'z']" := by
   constructor <;> rfl
-
